@@ -1181,26 +1181,35 @@ class Explorer:
     n_inconclusive = 0
     n_inconclusive_required = 0
 
+    _armed = False
+
     def _alarm(self, *_):
-        raise StepBudget("path wall budget")
+        if self._armed:
+            raise StepBudget("path wall budget")
 
     def run_path(self, fn):
         global _CUR
         _CUR = self
         self._reset_path()
         old = signal.signal(signal.SIGALRM, self._alarm)
-        signal.setitimer(signal.ITIMER_REAL, self.path_wall_s)
+        # repeating: an exception raised while a __del__ runs is swallowed by the interpreter, so fire again
+        signal.setitimer(signal.ITIMER_REAL, self.path_wall_s, 0.05)
+        self._armed = True
         try:
             fn(self)
+            self._armed = False
             self.stats.paths += 1
             if self.asserted:
                 self.stats.paths_asserting += 1
         except PathAbort:
+            self._armed = False
             self.stats.aborted += 1
         except Frontier:
+            self._armed = False
             self.stats.frontier += 1
             self.frontiers.append([e.dump() for e in self.stack])
         except StepBudget as e:
+            self._armed = False
             signal.setitimer(signal.ITIMER_REAL, 0)
             self.stats.budget_hits += 1
             self.stats.paths += 1
@@ -1211,6 +1220,7 @@ class Explorer:
                 pass
             self._violate("path budget exhausted: " + str(e), self.budget_key, inputs, None, kind="budget")
         finally:
+            self._armed = False
             signal.setitimer(signal.ITIMER_REAL, 0)
             signal.signal(signal.SIGALRM, old)
 
@@ -1408,17 +1418,24 @@ class Concrete:
         global _CUR
         _CUR = self
 
+        armed = [True]
+
         def alarm(*_):
-            raise StepBudget("replay wall budget")
+            if armed[0]:
+                raise StepBudget("replay wall budget")
         old = signal.signal(signal.SIGALRM, alarm)
-        signal.setitimer(signal.ITIMER_REAL, wall_s)
+        signal.setitimer(signal.ITIMER_REAL, wall_s, 0.05)
         try:
             fn(self)
+            armed[0] = False
         except PathAbort:
+            armed[0] = False
             return "abort", self.violations
         except StepBudget:
+            armed[0] = False
             return "timeout", self.violations
         finally:
+            armed[0] = False
             signal.setitimer(signal.ITIMER_REAL, 0)
             signal.signal(signal.SIGALRM, old)
         return ("violation" if self.violations else "ok"), self.violations
